@@ -36,6 +36,9 @@ type c05Job struct {
 	Grow   bool           `json:"grow"`             // an environment thread reveals the last block
 	DStart uint64         `json:"dstart"`           // start block of the dependent "d" (default 1)
 	Blocks int            `json:"blocks,omitempty"` // chain length (default 3)
+	Pre    map[string]int `json:"pre,omitempty"`    // steps executed one after the other (config order) BEFORE the concurrent phase, by the same long-lived tasks
+	Reorg  int            `json:"reorg,omitempty"`  // > 0: the blocks above this fork block are replaced by a branch that is one block longer (by an environment thread of the concurrent phase, or, when Mid is set, right after the prefix)
+	Mid    map[string]int `json:"mid,omitempty"`    // steps executed one after the other right after a sequential reorganisation (a task with a warm header cache needs failing rounds before it can roll back)
 }
 
 func (j c05Job) blocks() int {
@@ -77,9 +80,9 @@ func init() {
 
 var (
 	c05Registry = simeth.Addr("c05-registry")
-	c05V        = [6][]byte{nil, simeth.Addr("c05-v1"), simeth.Addr("c05-v2"), simeth.Addr("c05-v3"), simeth.Addr("c05-v4"), simeth.Addr("c05-v5")} // `from` values registered with R1 in block m
-	c05U        = [6][]byte{nil, simeth.Addr("c05-u1"), simeth.Addr("c05-u2"), simeth.Addr("c05-u3"), simeth.Addr("c05-u4"), simeth.Addr("c05-u5")} // emitters registered with R2 in block m
-	c05W        = [6][]byte{nil, simeth.Addr("c05-w1"), simeth.Addr("c05-w2"), simeth.Addr("c05-w3"), simeth.Addr("c05-w4"), simeth.Addr("c05-w5")} // tx_to values registered with R1 in block m
+	c05V        = [7][]byte{nil, simeth.Addr("c05-v1"), simeth.Addr("c05-v2"), simeth.Addr("c05-v3"), simeth.Addr("c05-v4"), simeth.Addr("c05-v5"), simeth.Addr("c05-v6")} // `from` values registered with R1 in block m
+	c05U        = [7][]byte{nil, simeth.Addr("c05-u1"), simeth.Addr("c05-u2"), simeth.Addr("c05-u3"), simeth.Addr("c05-u4"), simeth.Addr("c05-u5"), simeth.Addr("c05-u6")} // emitters registered with R2 in block m
+	c05W        = [7][]byte{nil, simeth.Addr("c05-w1"), simeth.Addr("c05-w2"), simeth.Addr("c05-w3"), simeth.Addr("c05-w4"), simeth.Addr("c05-w5"), simeth.Addr("c05-w6")} // tx_to values registered with R1 in block m
 	c05X        = simeth.Addr("c05-unregistered-from")
 	c05Y        = simeth.Addr("c05-unregistered-emitter")
 )
@@ -95,6 +98,12 @@ func c05Decls(j c05Job) *c05Graph {
 		return &world.Decl{Name: name, Table: table, Event: ev, Sources: src(1), Inputs: []world.Input{{Name: "who", Type: "address", Column: "who"}}}
 	}
 	r1, r2 := reg("r1", "rt1", "RegOne"), reg("r2", "rt2", "RegTwo")
+	if j.Reorg > 0 {
+		// a task notices a reorganisation only when it loads headers (parent hash): the referenced
+		// integrations select block_time (a header-only field) in the reorg jobs
+		r1.Fields = []world.Field{{Name: "block_time", Column: "block_time"}}
+		r2.Fields = []world.Field{{Name: "block_time", Column: "block_time"}}
+	}
 	ds := j.DStart
 	if ds == 0 {
 		ds = 1
@@ -169,8 +178,9 @@ var c05ChainCache = map[string]*simeth.Chain{}
 
 // c05BuildChain: blocks 1..n. Block m, tx0 (registry): RegOne(v_m), RegOne(w_m), RegTwo(u_m), Other;
 // tx1 (to = w_m): Transfer logs {u_m,v_m} {u_m,X} {Y,v_m} {u_(m-1),v_(m-1)}, Act(v_m), Act(X), Act(v_(m-1)).
-func c05BuildChain(n int) *simeth.Chain {
-	if c, ok := c05ChainCache[fmt.Sprint(n)]; ok {
+func c05BuildChain(n, fork int) *simeth.Chain {
+	key := fmt.Sprintf("%d/%d", n, fork)
+	if c, ok := c05ChainCache[key]; ok {
 		return c
 	}
 	src := []world.SrcRef{{Name: "src1", Start: 1}}
@@ -180,29 +190,53 @@ func c05BuildChain(n int) *simeth.Chain {
 	act := &world.Decl{Name: "d2", Event: "Act", Inputs: []world.Input{{Name: "who", Type: "address", Indexed: true, Column: "c_who"}, {Name: "x", Type: "uint256", Column: "c_x"}}}
 	oth := &world.Decl{Name: "u", Event: "Other", Inputs: []world.Input{{Name: "x", Type: "address", Indexed: true, Column: "x"}, {Name: "y", Type: "uint256", Column: "y"}}}
 	aw := world.AddrWord
-	var specs []simeth.BlockSpec
-	for m := 1; m <= n; m++ {
-		to := simeth.Addr(fmt.Sprintf("c05-to-%d", m))
-		t0 := simeth.TxSpec{Logs: []*simeth.Log{r1.MkLog(c05Registry, aw(c05V[m])), r1.MkLog(c05Registry, aw(c05W[m])), r2.MkLog(c05Registry, aw(c05U[m])),
-			oth.MkLog(c05Registry, aw(c05V[m]), world.U(uint64(m)))}}
-		t1 := simeth.TxSpec{Logs: []*simeth.Log{
-			tr.MkLog(c05U[m], aw(c05V[m]), aw(to), world.U(uint64(100+m))),
-			tr.MkLog(c05U[m], aw(c05X), aw(to), world.U(uint64(200+m))),
-			tr.MkLog(c05Y, aw(c05V[m]), aw(to), world.U(uint64(300+m))),
-			act.MkLog(c05Registry, aw(c05V[m]), world.U(uint64(400+m))),
-			act.MkLog(c05Registry, aw(c05X), world.U(uint64(500+m))),
-		}}
-		if m > 1 {
-			t1.Logs = append(t1.Logs, tr.MkLog(c05U[m-1], aw(c05V[m-1]), aw(to), world.U(uint64(600+m))), act.MkLog(c05Registry, aw(c05V[m-1]), world.U(uint64(700+m))))
+	// specs of blocks lo..hi; alt: the blocks of a replacing branch (other registered values, other logs)
+	mkSpecs := func(lo, hi int, alt bool) []simeth.BlockSpec {
+		V, U, W := c05V, c05U, c05W
+		off := uint64(0)
+		if alt {
+			off = 5000
+			for m := 1; m < len(V); m++ {
+				V[m], U[m], W[m] = simeth.Addr(fmt.Sprintf("c05-alt-v%d", m)), simeth.Addr(fmt.Sprintf("c05-alt-u%d", m)), simeth.Addr(fmt.Sprintf("c05-alt-w%d", m))
+			}
+			V[lo-1], U[lo-1] = c05V[lo-1], c05U[lo-1]
 		}
-		specs = append(specs, simeth.BlockSpec{Txs: []simeth.TxSpec{t0, t1}})
+		var specs []simeth.BlockSpec
+		for m := lo; m <= hi; m++ {
+			to := simeth.Addr(fmt.Sprintf("c05-to-%d-%v", m, alt))
+			t0 := simeth.TxSpec{Logs: []*simeth.Log{r1.MkLog(c05Registry, aw(V[m])), r1.MkLog(c05Registry, aw(W[m])), r2.MkLog(c05Registry, aw(U[m])),
+				oth.MkLog(c05Registry, aw(V[m]), world.U(off+uint64(m)))}}
+			t1 := simeth.TxSpec{Logs: []*simeth.Log{
+				tr.MkLog(U[m], aw(V[m]), aw(to), world.U(off+uint64(100+m))),
+				tr.MkLog(U[m], aw(c05X), aw(to), world.U(off+uint64(200+m))),
+				tr.MkLog(c05Y, aw(V[m]), aw(to), world.U(off+uint64(300+m))),
+				act.MkLog(c05Registry, aw(V[m]), world.U(off+uint64(400+m))),
+				act.MkLog(c05Registry, aw(c05X), world.U(off+uint64(500+m))),
+			}}
+			if m > 1 {
+				t1.Logs = append(t1.Logs, tr.MkLog(U[m-1], aw(V[m-1]), aw(to), world.U(off+uint64(600+m))), act.MkLog(c05Registry, aw(V[m-1]), world.U(off+uint64(700+m))))
+			}
+			specs = append(specs, simeth.BlockSpec{Txs: []simeth.TxSpec{t0, t1}})
+		}
+		return specs
 	}
+	if fork > 0 {
+		base := c05BuildChain(n, 0)
+		c := base.Reorg(uint64(fork), mkSpecs(fork+1, n+1, true), 6)
+		for m := fork + 1; m <= n+1; m++ {
+			c.Blocks[m].Txs[1].To = simeth.Addr(fmt.Sprintf("c05-alt-w%d", m))
+		}
+		c.Seal()
+		c05ChainCache[key] = c
+		return c
+	}
+	specs := mkSpecs(1, n, false)
 	c := simeth.Build(specs, 5)
 	for m := 1; m <= n; m++ {
 		c.Blocks[m].Txs[1].To = append([]byte{}, c05W[m]...)
 	}
 	c.Seal()
-	c05ChainCache[fmt.Sprint(n)] = c
+	c05ChainCache[key] = c
 	return c
 }
 
@@ -224,8 +258,12 @@ func c05Jobs(thorough bool) []c05Job {
 		add(graph, st(r, 2, "d", 3), 1, false, 1)
 		add(graph, st(r, 2, "d", 2), 2, false, 1)
 		add(graph, st(r, 3, "d", 2), 1, false, 2)
-		add(graph, st(r, 2, "d", 2), 1, true, 1)
-		add(graph, st(r, 3, "d", 3), 1, false, 1)
+		if graph == "input" || thorough { // the other two-thread graphs differ in the fetch plan only
+			add(graph, st(r, 3, "d", 3), 1, false, 1)
+		}
+		if graph == "input" || thorough {
+			add(graph, st(r, 2, "d", 2), 1, true, 1)
+		}
 		add(graph, st(r, 0, "d", 2), 1, false, 1) // referenced integration never starts
 		add(graph, st(r, 0, "d", 2), 2, false, 2)
 		add(graph, st(r, 0, "d", 2), 1, true, 1)
@@ -237,15 +275,19 @@ func c05Jobs(thorough bool) []c05Job {
 	one("field", "r2")
 	one("txfield", "r1")
 	for _, g := range []string{"two", "two-or"} {
-		add(g, st("r1", 2, "r2", 1, "d", 2), 2, false, 1)
+		if g == "two" || thorough {
+			add(g, st("r1", 2, "r2", 1, "d", 2), 2, false, 1)
+		}
 		add(g, st("r1", 2, "r2", 0, "d", 2), 1, false, 1) // R2 never starts
 		add(g, st("r1", 0, "r2", 2, "d", 2), 1, false, 1) // R1 never starts
 		add(g, st("r1", 0, "r2", 0, "d", 2), 1, false, 1) // neither starts
 		add(g, st("r1", 2, "r2", 0, "d", 2), 2, false, 2)
 		add(g, st("r1", 1, "r2", 0, "d", 1), 1, true, 1)
-		if g == "two" || thorough {
-			add(g, st("r1", 1, "r2", 2, "d", 2), 1, false, 1)
+		if g == "two" {
 			add(g, st("r1", 1, "r2", 1, "d", 1), 1, true, 1)
+		}
+		if thorough {
+			add(g, st("r1", 1, "r2", 2, "d", 2), 1, false, 1)
 		}
 		if thorough && g == "two" {
 			add(g, st("r1", 2, "r2", 2, "d", 2), 1, false, 1)
@@ -258,7 +300,7 @@ func c05Jobs(thorough bool) []c05Job {
 		if g == "shared" || thorough {
 			add(g, st("r1", 2, "r2", 1, "d", 2), 2, false, 1)
 		}
-		if g == "shared-rev" || thorough {
+		if thorough {
 			add(g, st("r1", 1, "r2", 2, "d", 2), 1, false, 1)
 		}
 	}
@@ -277,10 +319,12 @@ func c05Jobs(thorough bool) []c05Job {
 	add("chain", st("r1", 2, "d", 2, "d2", 1), 1, false, 1)
 	add("chain", st("r1", 1, "d", 1, "d2", 2), 1, false, 1)
 	add("chain", st("r1", 1, "d", 2, "d2", 2), 2, false, 1)
-	add("chain", st("r1", 1, "d", 1, "d2", 1), 1, true, 1)
+	if thorough {
+		add("chain", st("r1", 1, "d", 1, "d2", 1), 1, true, 1)
+		add("chain", st("r1", 2, "d", 0, "d2", 2), 2, true, 1)
+	}
 	add("chain", st("r1", 0, "d", 2, "d2", 2), 1, false, 1) // R1 never starts: neither D nor D2 may move
 	add("chain", st("r1", 2, "d", 0, "d2", 2), 1, false, 1) // D never starts: D2 may not move
-	add("chain", st("r1", 2, "d", 0, "d2", 2), 2, true, 1)
 	add("unrelated", st("r1", 2, "u", 1, "d", 2), 1, false, 1)
 	add("unrelated", st("r1", 0, "u", 2, "d", 2), 1, false, 1) // R1 never starts, the unrelated integration runs
 	add("unrelated", st("r1", 0, "u", 2, "d", 2), 2, false, 2)
@@ -288,6 +332,24 @@ func c05Jobs(thorough bool) []c05Job {
 	if thorough {
 		add("chain", st("r1", 2, "d", 2, "d2", 2), 1, false, 1)
 		add("unrelated", st("r1", 2, "u", 2, "d", 2), 1, false, 1)
+	}
+	// reorganisation below the referenced integration's position while the dependent is >= 2 blocks behind it:
+	// sequential prefix (R to the head, D one step), then {reorg event, R re-indexing, D} in all orders
+	reorg := func(graph string, pre, mid, steps map[string]int, batch, blocks, fork int) {
+		jobs = append(jobs, c05Job{Graph: graph, Steps: steps, Batch: batch, DStart: 1, Blocks: blocks, Pre: pre, Mid: mid, Reorg: fork})
+	}
+	// the reorg event is part of the concurrent alphabet; the referenced task needs up to three rounds to roll back
+	reorg("input", st("r1", 3, "d", 1), nil, st("r1", 2, "d", 2), 2, 5, 2)
+	// the reorg and the referenced task's failing rounds happen right after the prefix; its roll-back round races with the dependent
+	reorg("input", st("r1", 3, "d", 1), st("r1", 2), st("r1", 2, "d", 2), 1, 3, 1)
+	reorg("field", st("r2", 3, "d", 1), st("r2", 2), st("r2", 1, "d", 2), 1, 3, 1)
+	reorg("txfield", st("r1", 3, "d", 1), st("r1", 2), st("r1", 1, "d", 2), 1, 3, 1)
+	reorg("input", st("r1", 3, "d", 1), st("r1", 1), st("r1", 1, "d", 2), 2, 5, 2)
+	reorg("two", st("r1", 3, "r2", 3, "d", 1), st("r1", 5), st("r1", 1, "r2", 0, "d", 2), 1, 3, 1) // three integrations: a cached header survives three reads, the roll-back comes in the sixth round
+	reorg("input", st("r1", 3, "d", 1), nil, st("r1", 2, "d", 1), 1, 3, 2)                         // shallow reorg: only the referenced integration's newest block is replaced
+	if thorough {
+		reorg("two", st("r1", 3, "r2", 3, "d", 1), st("r1", 5), st("r1", 1, "r2", 1, "d", 2), 1, 3, 1)
+		reorg("input", st("r1", 4, "d", 1), st("r1", 2), st("r1", 2, "d", 3), 1, 4, 1)
 	}
 	// largest jobs first: round-robin sharding then spreads them over the workers
 	sort.SliceStable(jobs, func(a, b int) bool { return c05Weight(jobs[a]) > c05Weight(jobs[b]) })
@@ -303,7 +365,7 @@ func c05Weight(j c05Job) int {
 			n++
 		}
 	}
-	if j.Grow {
+	if j.Grow || (j.Reorg > 0 && len(j.Mid) == 0) {
 		w *= 3
 	}
 	for i := 1; i < n; i++ {
@@ -315,18 +377,19 @@ func c05Weight(j c05Job) int {
 // ---- preparation -------------------------------------------------------------------------------------
 
 type c05Prep struct {
-	g     *c05Graph
-	conf  string
-	snap  *simpg.Snapshot
-	full  *simeth.Chain
-	init  *simeth.Chain
-	final map[string][]world.Row // model: the complete table of every integration (look-ups resolved recursively)
+	g       *c05Graph
+	conf    string
+	snap    *simpg.Snapshot
+	full    *simeth.Chain
+	reorged *simeth.Chain // the chain after the reorganisation (jobs with Reorg > 0)
+	init    *simeth.Chain
+	final   map[string][]world.Row // model: the complete table of every integration (look-ups resolved recursively)
 }
 
 var c05PrepCache = map[string]*c05Prep{}
 
 func c05Prepare(j c05Job) (*c05Prep, error) {
-	key := fmt.Sprintf("%s/%d/%d/%d", j.Graph, j.Batch, j.DStart, j.blocks())
+	key := fmt.Sprintf("%s/%d/%d/%d/%d", j.Graph, j.Batch, j.DStart, j.blocks(), j.Reorg)
 	p, ok := c05PrepCache[key]
 	if !ok {
 		p = &c05Prep{g: c05Decls(j)}
@@ -338,7 +401,10 @@ func c05Prepare(j c05Job) (*c05Prep, error) {
 		if p.snap, err = world.InitDB(conf); err != nil {
 			return nil, err
 		}
-		p.full = c05BuildChain(j.blocks())
+		p.full = c05BuildChain(j.blocks(), 0)
+		if j.Reorg > 0 {
+			p.reorged = c05BuildChain(j.blocks(), j.Reorg)
+		}
 		p.final = map[string][]world.Row{}
 		for _, d := range p.g.decls { // config order is a topological order of the graph
 			p.final[d.Name] = d.Expect(p.full, "src1", 7, d.Sources[0].Start, uint64(j.blocks()), p.lookup())
@@ -382,6 +448,7 @@ type c05Result struct {
 	rows      int
 	moves     int // cursor moves committed by dependents
 	noops     int // steps of a dependent that did nothing because a referenced integration had no position
+	errs      int // failed rounds in reorg jobs (allowed: nothing is recorded)
 	lookups   int
 	outsideTx int // reference look-ups issued outside an open transaction (not judged: equivalent under READ COMMITTED)
 	diverged  string
@@ -495,6 +562,7 @@ func c05Exec(j c05Job, p *c05Prep, ch vrt.Chooser, states *vrt.StateSet, trace, 
 	}
 	w.Net.Gate = func(ex *simeth.Exchange) { restrict(); netGate(ex) }
 	// oracle at every commit: a cursor row of a dependent inserted by the dependent's own thread
+	seenMax := map[string]map[string]uint64{} // dependent -> referenced -> highest position held since the dependent's current step began
 	w.OnCommit = func(c world.Commit) {
 		if c.Ev.Kind != "commit" && c.Ev.Kind != "autocommit" {
 			return
@@ -504,6 +572,15 @@ func c05Exec(j c05Job, p *c05Prep, ch vrt.Chooser, states *vrt.StateSet, trace, 
 				continue
 			}
 			ig, _ := chg.Row.Vals["ig_name"].(string)
+			if bn, _ := chg.Row.Vals["num"].(*big.Int); bn != nil {
+				for dep, refs := range p.g.deps {
+					for _, r := range refs {
+						if m, ok := seenMax[dep][r]; r == ig && seenMax[dep] != nil && (!ok || bn.Uint64() > m) {
+							seenMax[dep][r] = bn.Uint64()
+						}
+					}
+				}
+			}
 			refs, dependent := p.g.deps[ig]
 			if !dependent {
 				continue
@@ -517,6 +594,12 @@ func c05Exec(j c05Job, p *c05Prep, ch vrt.Chooser, states *vrt.StateSet, trace, 
 			var missing, behind, present []string
 			for _, r := range refs {
 				cur, ok := w.Latest("src1", r)
+				// a position the referenced integration HELD at some moment of the dependent's current step counts:
+				// positions are not monotonic (a reorg rolls the referenced integration back), and the dependent
+				// decides on what it could read during its step
+				if m, held := seenMax[ig][r]; held && (!ok || m > cur.Num) {
+					cur.Num, ok = m, true
+				}
 				switch {
 				case !ok:
 					missing = append(missing, r)
@@ -535,7 +618,9 @@ func c05Exec(j c05Job, p *c05Prep, ch vrt.Chooser, states *vrt.StateSet, trace, 
 			case len(behind) > 0:
 				vio("ran-ahead", "ran-ahead-of-referenced:"+tag, fmt.Sprintf("thread %s committed cursor %s=%d but referenced cursors are %v", c.Thread, ig, n, behind))
 			}
-			if res.vio != nil {
+			if res.vio != nil || j.Reorg > 0 {
+				// with a reorg the rows of a block depend on the branch that was loaded and on the branch the
+				// referenced table held at that moment: only the positions are judged
 				return
 			}
 			d := p.g.decl(ig)
@@ -578,19 +663,101 @@ func c05Exec(j c05Job, p *c05Prep, ch vrt.Chooser, states *vrt.StateSet, trace, 
 		for _, d := range p.g.decls {
 			cols[d.Name] = w.TableCols(d.Table)
 		}
-		var ths []*vrt.Thread
-		for _, name := range c05Names(j) {
-			name, n := name, j.Steps[name]
+		// oneStep runs one Converge of an integration's long-lived task and judges it; false = stop
+		oneStep := func(name string, s int) bool {
 			task := byName[name]
-			if task == nil {
+			refs, dependent := p.g.deps[name]
+			d := p.g.decl(name)
+			var before []string
+			var curBefore world.Cursor
+			var hadBefore bool
+			if dependent {
+				before = world.RenderDump(w.PG.Dump(d.Table), cols[name])
+				curBefore, hadBefore = w.Latest("src1", name)
+				seenMax[name] = map[string]uint64{}
+				for _, r := range refs {
+					if c, ok := w.Latest("src1", r); ok {
+						seenMax[name][r] = c.Num
+					}
+				}
+			}
+			out, err := task.Step()
+			if w.V.Closing() {
+				return false
+			}
+			switch {
+			case out == "ok" || out == "nothing":
+			case out == "ahead" && dependent && j.Reorg > 0: // a referenced integration was rolled back below the dependent's position
+			case out == "error" && j.Reorg > 0: // e.g. a header cached before the reorganisation contradicts the logs of the new branch: the round fails, nothing is recorded, the next round retries
+				res.errs++
+			case out == "panic":
+				vio("panic", "panic:"+tag+":"+name, fmt.Sprintf("Converge of %s panicked: %v", name, err))
+				return false
+			default:
+				vio("outcome", "outcome:"+out+":"+tag+":"+name, fmt.Sprintf("step %d of %s: unexpected outcome %q: %v", s, name, out, err))
+				return false
+			}
+			if !dependent {
+				return true
+			}
+			// a referenced integration that has still no recorded position now had none during the whole step
+			var missing []string
+			for _, r := range refs {
+				if _, ok := w.Latest("src1", r); !ok {
+					if _, held := seenMax[name][r]; !held {
+						missing = append(missing, r)
+					}
+				}
+			}
+			if len(missing) > 0 {
+				after := world.RenderDump(w.PG.Dump(d.Table), cols[name])
+				curAfter, hadAfter := w.Latest("src1", name)
+				if out != "nothing" || strings.Join(before, "\n") != strings.Join(after, "\n") || hadAfter != hadBefore || curAfter.Num != curBefore.Num {
+					key := "not-noop-without-dependency-position:" + tag
+					if len(missing) < len(refs) {
+						key = "dep-ignored:referenced-not-started"
+					}
+					vio("not-noop", key, fmt.Sprintf("step %d of %s: referenced integration(s) %v have no recorded position, yet outcome=%q cursor %v->%v(%v)", s, name, missing, out, curBefore.Num, curAfter.Num, hadAfter))
+					return false
+				}
+				res.noops++
+			}
+			return true
+		}
+		for name := range j.Steps {
+			if byName[name] == nil {
 				w.HarnessErr = "no task " + name
 				return
 			}
-			if n == 0 {
-				continue // never starts
+		}
+		// sequential prefix (same task objects as the concurrent phase)
+		for _, d := range p.g.decls {
+			for s := 0; s < j.Pre[d.Name]; s++ {
+				if byName[d.Name] == nil {
+					w.HarnessErr = "no task " + d.Name
+					return
+				}
+				if !oneStep(d.Name, -1-s) || res.vio != nil {
+					return
+				}
 			}
-			refs, dependent := p.g.deps[name]
-			d := p.g.decl(name)
+		}
+		if j.Reorg > 0 && len(j.Mid) > 0 {
+			w.SetChain("node1", p.reorged, "reorg")
+			for _, d := range p.g.decls {
+				for s := 0; s < j.Mid[d.Name]; s++ {
+					if !oneStep(d.Name, -100-s) || res.vio != nil {
+						return
+					}
+				}
+			}
+		}
+		var ths []*vrt.Thread
+		for _, name := range c05Names(j) {
+			name, n := name, j.Steps[name]
+			if n == 0 {
+				continue // never starts (in the concurrent phase)
+			}
 			ths = append(ths, w.V.GoNamed(name, func() {
 				for s := 0; s < n; s++ {
 					if s > 0 { // who runs first is already a free choice (join / exit / another thread's boundary)
@@ -599,48 +766,8 @@ func c05Exec(j c05Job, p *c05Prep, ch vrt.Chooser, states *vrt.StateSet, trace, 
 					if w.V.Closing() || res.vio != nil {
 						return
 					}
-					var before []string
-					var curBefore world.Cursor
-					var hadBefore bool
-					if dependent {
-						before = world.RenderDump(w.PG.Dump(d.Table), cols[name])
-						curBefore, hadBefore = w.Latest("src1", name)
-					}
-					out, err := task.Step()
-					if w.V.Closing() {
+					if !oneStep(name, s) {
 						return
-					}
-					switch out {
-					case "ok", "nothing":
-					case "panic":
-						vio("panic", "panic:"+tag+":"+name, fmt.Sprintf("Converge of %s panicked: %v", name, err))
-						return
-					default:
-						vio("outcome", "outcome:"+out+":"+tag+":"+name, fmt.Sprintf("step %d of %s: unexpected outcome %q: %v", s, name, out, err))
-						return
-					}
-					if !dependent {
-						continue
-					}
-					// a referenced integration that has still no recorded position now had none during the whole step
-					var missing []string
-					for _, r := range refs {
-						if _, ok := w.Latest("src1", r); !ok {
-							missing = append(missing, r)
-						}
-					}
-					if len(missing) > 0 {
-						after := world.RenderDump(w.PG.Dump(d.Table), cols[name])
-						curAfter, hadAfter := w.Latest("src1", name)
-						if out != "nothing" || strings.Join(before, "\n") != strings.Join(after, "\n") || hadAfter != hadBefore || curAfter.Num != curBefore.Num {
-							key := "not-noop-without-dependency-position:" + tag
-							if len(missing) < len(refs) {
-								key = "dep-ignored:referenced-not-started"
-							}
-							vio("not-noop", key, fmt.Sprintf("step %d of %s: referenced integration(s) %v have no recorded position, yet outcome=%q cursor %v->%v(%v)", s, name, missing, out, curBefore.Num, curAfter.Num, hadAfter))
-							return
-						}
-						res.noops++
 					}
 				}
 			}))
@@ -648,6 +775,12 @@ func c05Exec(j c05Job, p *c05Prep, ch vrt.Chooser, states *vrt.StateSet, trace, 
 		restrict()
 		if j.Grow {
 			env := w.V.GoNamed("env", func() { w.SetChain("node1", p.full, "grow") })
+			env.OnlyAt = func(l string) bool { return strings.HasPrefix(l, "rpc:") || strings.HasPrefix(l, "boundary:") }
+			restrict()
+			ths = append(ths, env)
+		}
+		if j.Reorg > 0 && len(j.Mid) == 0 {
+			env := w.V.GoNamed("env", func() { w.SetChain("node1", p.reorged, "reorg") })
 			env.OnlyAt = func(l string) bool { return strings.HasPrefix(l, "rpc:") || strings.HasPrefix(l, "boundary:") }
 			restrict()
 			ths = append(ths, env)
@@ -706,7 +839,7 @@ func c05Modes(j c05Job, thorough bool) []c05Mode {
 	}
 	ms := []c05Mode{{b1, true}}
 	w := c05Weight(j)
-	if w <= 60 || (w <= 170 && !j.Grow && (j.Graph == "two" || j.Graph == "chain")) {
+	if len(j.Pre) == 0 && (w <= 60 || (w <= 170 && !j.Grow && (j.Graph == "two" || j.Graph == "chain"))) {
 		ms = append(ms, c05Mode{b2, false})
 	}
 	return ms
@@ -744,6 +877,10 @@ func c05Run(c *fw.Ctx) {
 			b := mode.b
 			states := vrt.NewStateSet()
 			k := c05Case{Job: j, Bounds: b, FullIO: mode.fullIO}
+			var dbgOut map[string]int
+			if os.Getenv("C05_DEBUG") != "" {
+				dbgOut = map[string]int{}
+			}
 			st := explore.Explore(b, true, func(r *explore.Run) bool {
 				res := c05Exec(j, p, r, states, false, k.FullIO)
 				if res.harness != "" {
@@ -756,11 +893,15 @@ func c05Run(c *fw.Ctx) {
 				}
 				c.Eval(res.moves > 0 && res.rows > 0)
 				c.Outcome(res.outcome)
+				if dbgOut != nil {
+					dbgOut[res.outcome]++
+				}
 				c.Res.Transitions += res.trans
 				c.Res.Traces++
 				c.Count("dependent_cursor_moves", int64(res.moves))
 				c.Count("dependent_noop_steps_without_dependency_position", int64(res.noops))
 				c.Count("reference_lookups", int64(res.lookups))
+				c.Count("failed_rounds_in_reorg_jobs", int64(res.errs))
 				c.Count("reference_lookups_outside_a_transaction", int64(res.outsideTx))
 				if res.vio != nil {
 					jb, _ := json.Marshal(j)
@@ -775,6 +916,8 @@ func c05Run(c *fw.Ctx) {
 			if dbg := os.Getenv("C05_DEBUG"); dbg != "" {
 				f, _ := os.OpenFile(dbg, os.O_APPEND|os.O_CREATE|os.O_WRONLY, 0o644)
 				fmt.Fprintf(f, "job %+v mode %+v: executions=%d points=%d maxdepth=%d complete=%v\n", j, mode, st.Executions, st.Points, st.MaxDepth, st.Complete)
+
+				fmt.Fprintf(f, "  outcomes %v\n", dbgOut)
 				f.Close()
 			}
 			if !st.Complete {
